@@ -285,7 +285,7 @@ CLAIMS = {
              " Audit follow-up: row counts are restated independently of the writer (scenarioCount of a cell = 1 for scalars, S for S-sample cells; rows_count_wide_scenarios / rows_count_long_scenarios give the one-to-one correspondence rows <-> (cell, scenario[, field])); matrixIndex_total removes the index as a hypothesis (fromMatrix_toMatrix_default, fromRich_toRich_default: semi-regular, two evaluation months, one inferred resolution divides the other); every domain predicate has an inhabitant (wflong_example, wfwideIncr_example, wflongIncr_example, exQ_matrix_example). Declared: from_long_data_frame with non-empty loss_detail_cols is modelled and checked by the correspondence but has no theorem (the proved long round trip is the from_long_csv call, where loss details come back as details); the array-frame round trip is proved for one-field triangles, for several fields the pieces (fromArrayFrame_args, arrayBuilder_spec, C10 merge theorems) are proved but not composed."
              " Final round: fromWide_toWide_inferred / fromWide_toWide_incremental_inferred (the from_wide_csv call with detail_cols left out, field_cols and loss_detail_cols given, every declared detail column occurring in some cell's metadata: the reader infers list(set(columns) - CORE_SET - set(field_cols)); inferCols_written), and the wide-form domains only ask the detail / loss-detail column lists to be duplicate-free (the reader sorts detail items itself). Still declared: the multi-field array-frame round trip is not composed (needs Python's int(str(lag)) = lag and a permutation argument over C10's join pairs); the long form read back with non-empty loss_detail_cols is modelled and differential-checked only (field_cols=None: see the last round)."
              " Last round (cumulative triangles; field_cols=None AND detail_cols=None together, and the incremental analogue, are not done): fromWide_toWide_fieldsPerm (handed any permutation of the triangle's fields as field_cols the wide reader returns the triangle) and fromWide_toWide_fieldsInferred (field_cols=None: the inferred list is a permutation of the fields, inferFields_written) - cumulative triangles; the incremental analogue is not done."
-             " Session 4 (supersedes the 'declared' sentences above about the long form and the array frame): fromLong_toLong_lossDetails (the long table read back with loss_detail_cols = L - L duplicate-free, inside the declared loss-detail columns and covering every loss-detail key of the triangle (LossCols, inhabitant lossCols_example) - gives the triangle itself with loss details as loss details: the model call the driver runs for the case long+loss_detail_cols), toLong_rowMetadata_lossDetails, arrayExpected_values_wf, arrayBuilder_two_fields_partial (two regular frames with explicit period_resolution: the builder equals merge(full) of the two expected triangles and every result merge returns satisfies C10's mergeSpecLast). Second pass (supersedes the partial): arrayBuilder_two_fields (under the two RegFrame hypotheses the builder RETURNS some out and C10's full mergeSpec holds of it), from merge_cumulative_returns (merge(full) of two lists of cumulative cells returns), arrayExpected_cumulative / _prev_none / _keys_nodup (distinct coordinates inside one expected triangle), cellAtLast_mem; closed instance arrayBuilder_two_fields_example (+ _domain: the two frames satisfy the RegFrame hypotheses; one coordinate only because the kernel cannot evaluate List.mergeSort on more). Third pass: arrayBuilder_fields (ANY number n >= 1 of regular frames with explicit period_resolution: the builder returns, the result is the iterated merge with every step returning and satisfying C10's mergeSpec(full) (MergeChain), and it is an all-cumulative triangle with distinct coordinates and distinct dict keys (CumTriangle); three-frame example; arrayBuilder_fields_partial kept, superseded) and arrayBuilder_two_fields_inferred (period_resolution=None, two frames each with at least two rows whose first two period starts are res months apart - the domain of the inference itself, fromArrayFrame_args_inferred). Still declared for the array builder: n frames with the resolution inferred; a one-formula description of the output per coordinate and field (it follows from the chain of mergeSpecs but is not stated).",
+             " Session 4 (supersedes the 'declared' sentences above about the long form and the array frame): fromLong_toLong_lossDetails (the long table read back with loss_detail_cols = L - L duplicate-free, inside the declared loss-detail columns and covering every loss-detail key of the triangle (LossCols, inhabitant lossCols_example) - gives the triangle itself with loss details as loss details: the model call the driver runs for the case long+loss_detail_cols), toLong_rowMetadata_lossDetails, arrayExpected_values_wf, arrayBuilder_two_fields_partial (two regular frames with explicit period_resolution: the builder equals merge(full) of the two expected triangles and every result merge returns satisfies C10's mergeSpecLast). Second pass (supersedes the partial): arrayBuilder_two_fields (under the two RegFrame hypotheses the builder RETURNS some out and C10's full mergeSpec holds of it), from merge_cumulative_returns (merge(full) of two lists of cumulative cells returns), arrayExpected_cumulative / _prev_none / _keys_nodup (distinct coordinates inside one expected triangle), cellAtLast_mem; closed instance arrayBuilder_two_fields_example (+ _domain: the two frames satisfy the RegFrame hypotheses; one coordinate only because the kernel cannot evaluate List.mergeSort on more). Third pass: arrayBuilder_fields (ANY number n >= 1 of regular frames with explicit period_resolution: the builder returns, the result is the iterated merge with every step returning and satisfying C10's mergeSpec(full) (MergeChain), and it is an all-cumulative triangle with distinct coordinates and distinct dict keys (CumTriangle); three-frame example; arrayBuilder_fields_partial kept, superseded) and arrayBuilder_two_fields_inferred (period_resolution=None, two frames each with at least two rows whose first two period starts are res months apart - the domain of the inference itself, fromArrayFrame_args_inferred). Fourth pass: arrayBuilder_fields_inferred (any n >= 1 frames with period_resolution=None, each Reg and Infers res: returns, MergeChain, CumTriangle). Still declared for the array builder: a one-formula description of the output per coordinate and field (it follows from the chain of mergeSpecs but is not stated).",
         tech="Lean 4 theorems over regenerated group-by tables + row-model differential correspondence"),
     "C15": dict(level=PV, ref="§7 C15",
         text="42 kernel-checked theorems for both bases, none open: rightTri_lags_exact, rightTri_metadata, rightTri_values_empty, "
@@ -359,7 +359,7 @@ CLAIMS = {
              " Final round: me_centre_width and spec_me_independent restate the maximum-entropy value and interval clauses WITHOUT the model's quantile function (centre +- width/2 of the draw's grid cell floor(u*n); meValueCWOk / meIntervalsCWOk, which together with rankFixed determine the replicate), so those clauses are no longer differential; chain_step_ok / spec_chain_cells: every developed cell satisfies the per-cell chain clause against the developed cell before it. Still declared: chainOkSlice / ataMembershipOk / reproducesSlice = true on the whole bootstrapD output (missing: monotonicity of calculateDevLag in the evaluation date, the Spec's own ratio table, the upper-left-shape argument) - evaluated by the driver on model and implementation outputs in every run."
              " Last round (supersedes the 'missing: monotonicity' remark above): dev_lag_strict_mono (the month lag is strictly monotone in the evaluation date, any day of the month) and spec_chain_slice / spec_chain_replicate (chainOkSlice = true for the replicate of ONE slice - all cells one metadata, sorted, distinct coordinates and dict keys, age-to-age method - i.e. what _bootstrap_slice computes from numpy's index draws; hypothesis RowsByLag - the cells of a period with a smaller lag end with the list predecessor - exhibited on a 2x2 square). Still declared: RowsByLag is not yet derived from 'sorted slice with valid dates'; the lift to the k-th slice inside the summed multi-slice replicate; ataMembershipOk and reproducesSlice."
              " Very last round: rows_by_lag (SliceLayout s -> RowsByLag s: sorted by Cell.le, one metadata, calendar-valid evaluation dates, distinct evaluation dates within a period) removes the RowsByLag hypothesis: spec_chain_slice_layout, spec_chain_replicate_layout, and spec_chain_bootstrapD_single (chainOkSlice holds for every replicate of the model's bootstrapD output on a ONE-slice triangle). Still declared: the k-th slice of a multi-slice replicate; ataMembershipOk and reproducesSlice; no closed instance of bootstrap = ok."
-             " Session 4 (supersedes 'the k-th slice of a multi-slice replicate' and 'no closed instance of bootstrap = ok'): bootstrapD_ok_instance / bootstrapD_ok_exists (closed kernel-checked success of the model's bootstrap on a 2x2 one-slice square with index draws [1, 0]; chainOkSlice evaluated true on it through spec_chain_bootstrapD_single, so that bridge is not vacuous), spec_chain_bootstrapD_slices (for every slice s = slices[k] with SliceLayout, age-to-age method and distinct field names, of a kind-consistent tag-injective triangle, chainOkSlice holds of every replicate of bootstrapD), spec_ata_membership_partial (every factor the resampled table answers is a member of the model's empirical column for that lag and field). Second pass: bootstrapD_ok_two + spec_chain_two_slice_instance (closed two-slice instance: chainOkSlice true for both slices through spec_chain_bootstrapD_slices with every hypothesis discharged), spec_ata_membership_bootstrapD_partial (ataMembershipOk = true for every replicate over all slices GIVEN ColumnsInRatios - the factors of the model's table into a cell's lag lie in the Spec's own ratio column; everything else is proved: sliceOf is the k-th slice, the coordinate lookups in the summed replicate, the falsy / unselected / missing-field branches), spec_ata_membership_instance (that hypothesis discharged on the closed square). Third pass: spec_ata_membership_bootstrapD (ataMembershipOk = true for every replicate over all slices WITHOUT ColumnsInRatios, for slices satisfying RegularLags = {uniq: a period has at most one cell per lag; noSkip: the row predecessor's lag is the lag preceding the cell's lag in sortedLags - a genuine assumption, membership can fail where a period skips a lag; clipEnds: in the triangle clipped to two consecutive lags consecutive same-period cells sit exactly at those lags - derivable from SliceLayout but still a named hypothesis}), safe_ata_division_agrees (the model's safe division is the Spec's), regular_lags_instance / spec_ata_membership_regular_instance (closed inhabitant, every hypothesis discharged). Still declared: uniq and clipEnds are not yet derived from SliceLayout; reproducesSlice.",
+             " Session 4 (supersedes 'the k-th slice of a multi-slice replicate' and 'no closed instance of bootstrap = ok'): bootstrapD_ok_instance / bootstrapD_ok_exists (closed kernel-checked success of the model's bootstrap on a 2x2 one-slice square with index draws [1, 0]; chainOkSlice evaluated true on it through spec_chain_bootstrapD_single, so that bridge is not vacuous), spec_chain_bootstrapD_slices (for every slice s = slices[k] with SliceLayout, age-to-age method and distinct field names, of a kind-consistent tag-injective triangle, chainOkSlice holds of every replicate of bootstrapD), spec_ata_membership_partial (every factor the resampled table answers is a member of the model's empirical column for that lag and field). Second pass: bootstrapD_ok_two + spec_chain_two_slice_instance (closed two-slice instance: chainOkSlice true for both slices through spec_chain_bootstrapD_slices with every hypothesis discharged), spec_ata_membership_bootstrapD_partial (ataMembershipOk = true for every replicate over all slices GIVEN ColumnsInRatios - the factors of the model's table into a cell's lag lie in the Spec's own ratio column; everything else is proved: sliceOf is the k-th slice, the coordinate lookups in the summed replicate, the falsy / unselected / missing-field branches), spec_ata_membership_instance (that hypothesis discharged on the closed square). Third pass: spec_ata_membership_bootstrapD (ataMembershipOk = true for every replicate over all slices WITHOUT ColumnsInRatios, for slices satisfying RegularLags = {uniq: a period has at most one cell per lag; noSkip: the row predecessor's lag is the lag preceding the cell's lag in sortedLags - a genuine assumption, membership can fail where a period skips a lag; clipEnds: in the triangle clipped to two consecutive lags consecutive same-period cells sit exactly at those lags - derivable from SliceLayout but still a named hypothesis}), safe_ata_division_agrees (the model's safe division is the Spec's), regular_lags_instance / spec_ata_membership_regular_instance (closed inhabitant, every hypothesis discharged). Fourth pass: spec_ata_membership_bootstrapD_layout (uniq derived from SliceLayout - uniq_period_lag; the only regularity hypotheses beyond SliceLayout of every slice are NoSkipLags = {noSkip, clipEnds}; closed inhabitant no_skip_lags_instance). Still declared: clipEnds is not yet derived from SliceLayout; reproducesSlice.",
         tech="Lean 4 theorems over Q on models of the three resamplers with the RNG draws as parameters + Spec predicates on "
              "implementation outputs + differential correspondence"),
     "C18": dict(level=PV, ref="§7 C18",
